@@ -37,21 +37,19 @@ theorem piecewise_sound (a : Asg) (x y : Var) (ranges : List (Rat × Rat)) (cons
       a y = constants[i]'(hlen ▸ hi) :=
   piecewise_sound_proof a x y ranges constants name hlen hLU h
 
-theorem piecewise_complete_partial (a : Asg) (x y : Var) (ranges : List (Rat × Rat))
+theorem piecewise_complete (a : Asg) (x y : Var) (ranges : List (Rat × Rat))
     (constants : List Rat) (name : String) (hlen : ranges.length = constants.length)
     (hLU : ∀ r ∈ ranges, r.1 ≤ r.2) (j : Nat) (hj : j < ranges.length)
     (hx : (ranges[j]).1 ≤ a x ∧ a x ≤ (ranges[j]).2) (hy : a y = constants[j]'(hlen ▸ hj))
-    (hM : ∀ i, ∀ hi : i < constants.length,
-        constants[i] - bigM ranges ≤ a y ∧ a y ≤ constants[i] + bigM ranges)
     (hfresh : ∀ i, zVar name i ≠ x ∧ zVar name i ≠ y) :
     ∃ a' : Asg, (∀ v, (∀ i, v ≠ zVar name i) → a' v = a v) ∧
       Sat a' (piecewise x y ranges constants name) :=
-  piecewise_complete_partial_proof a x y ranges constants name hlen hLU j hj hx hy hM hfresh
+  piecewise_complete_proof a x y ranges constants name hlen hLU j hj hx hy hfresh
 
-theorem piecewise_bigM_witness :
-    ¬ ∃ a : Asg, a (.nm "x" "") = 1/2 ∧
-      Sat a (piecewise (.nm "x" "") (.nm "y" "") [(0,1),(2,3)] [0,100] "f") :=
-  piecewise_bigM_witness_proof
+theorem piecewise_far_constants_feasible :
+    ∃ a : Asg, a (.ix "x" 0) = 1/2 ∧ a (.ix "y" 0) = 0 ∧
+      Sat a (piecewise (.ix "x" 0) (.ix "y" 0) [(0,1),(2,3)] [0,100] "f") :=
+  piecewise_far_constants_feasible_proof
 
 theorem flush_fix_exact (f : GetColsField) (s : WState) (hnolb : s.pendingLb = [])
     (hnd : (s.pendingFix.map (·.1)).Nodup) (i : Nat) (hi : i < s.cols.length) :
